@@ -84,7 +84,7 @@ func c09TextVal(t *rapid.T) *TextVal {
 }
 
 func genC09(t *rapid.T) *C09Case {
-	c := &C09Case{File: &File{}, Switches: map[string]string{"V": rapid.SampledFrom([]string{"A", "B", "1", "zz"}).Draw(t, "swval")}}
+	c := &C09Case{File: &File{}, Switches: map[string]string{"V": rapid.SampledFrom([]string{"A", "B", "1", "zz", "0x2", "010", "8", "2"}).Draw(t, "swval")}}
 	n := rapid.IntRange(1, 4).Draw(t, "ntexts")
 	sc := &Script{Name: "S", Body: &Block{Stmts: []*Stmt{}}}
 	for i := 0; i < n; i++ {
@@ -121,7 +121,7 @@ func genC09(t *rapid.T) *C09Case {
 			sc.Body.Stmts = append(sc.Body.Stmts, sCmd(cmd))
 		case 1: // text statement with poryswitch
 			ps := &PSText{Var: "V"}
-			keys := rapid.Permutation([]string{"A", "B", "1", "_"}).Draw(t, "pskeys")
+			keys := rapid.Permutation([]string{"A", "B", "1", "_", "0x2", "010"}).Draw(t, "pskeys") // numeric keys are compared as written
 			nk := rapid.IntRange(1, 4).Draw(t, "npskeys")
 			for _, k := range keys[:nk] {
 				ps.Cases = append(ps.Cases, &PSTextCase{Key: k, Brace: rapid.Bool().Draw(t, "brace"), Val: c09TextVal(t)})
